@@ -99,7 +99,9 @@ pub fn identifiers<C: Ciphersuite>(p: &Params) -> Vec<Identifier<C>> {
 }
 
 pub fn u16_extreme_set(n: u16) -> Vec<u16> {
-    let all = [1u16, 2, 255, 256, 257, 65534, 65535, 3, 4096, 32768];
+    // high-bit values first, in pairs that coincide modulo 2^15 (1 / 32769, 65535 / 32767) and the
+    // lone top bit: a conversion that loses a bit produces a duplicate or a zero identifier
+    let all = [1u16, 32769, 65535, 32767, 32768, 2, 255, 256, 257, 4096];
     all.iter().take(n as usize).copied().collect()
 }
 
